@@ -3,6 +3,7 @@ package ops
 import (
 	"fmt"
 	"math"
+	"strings"
 
 	"go.einride.tech/can/pkg/descriptor"
 )
@@ -28,6 +29,9 @@ func genC08(g *G) {
 			g.Emit("smu %s %d %d %s %d", ge.Ord(), ge.S, ge.L, dataHex(p), m)
 			g.Emit("sms %s %d %d %s %d", ge.Ord(), ge.S, ge.L, dataHex(p), int64(g.R.U64())>>uint(g.R.Intn(64)))
 			g.Emit("sms %s %d %d %s %d", ge.Ord(), ge.S, ge.L, dataHex(p), -int64(m>>1)-1)
+			for _, sg := range []int{0, 1} {
+				g.Emit("sgp %s %d %d %d %s", ge.Ord(), ge.S, ge.L, sg, dataHex(p))
+			}
 			if ge.L == 32 {
 				g.Emit("sgf %s %d %s", ge.Ord(), ge.S, dataHex(p))
 				for _, f := range floatPatterns(g.R) {
@@ -35,6 +39,22 @@ func genC08(g *G) {
 				}
 				g.Tag("float32-geometry")
 			}
+		}
+		// value-description lookup: descriptions on the value actually carried (as the reference read gives it), its
+		// neighbours, zero and the extremes, for both signs
+		for i := 0; i < 2; i++ {
+			p := ps[g.R.Intn(len(ps))]
+			if i == 0 {
+				p |= refMSBMask(ge) // the most significant value bit set: unsigned 64-bit values wrap to negative int64
+			}
+			u := refRead(ge, p)
+			sv := int64(u)
+			if ge.L < 64 && u>>(uint(ge.L)-1)&1 == 1 {
+				sv = int64(u) - int64(1)<<uint(ge.L)
+			}
+			g.Emit("sgv %s %d %d 0 %s %d,%d,0,%d,%d", ge.Ord(), ge.S, ge.L, dataHex(p), int64(u), int64(u)+1, sv, int64(math.MaxInt64))
+			g.Emit("sgv %s %d %d 1 %s %d,%d,0,%d,%d", ge.Ord(), ge.S, ge.L, dataHex(p), sv, sv-1, int64(u), int64(math.MinInt64))
+			g.Emit("sgv %s %d %d %d %s 0", ge.Ord(), ge.S, ge.L, i, dataHex(p))
 		}
 		g.Tag("geo-" + ge.Ord())
 	}
@@ -89,6 +109,26 @@ func init() {
 	RegExec("sgs", func(a []string) string {
 		return fmt.Sprint(sigOf(a[0], a[1], a[2], true).UnmarshalSigned(parseData(a[3])))
 	})
+	RegExec("sgp", func(a []string) string {
+		s := sigOf(a[0], a[1], a[2], a[3] == "1")
+		s.Scale = 1
+		f := s.UnmarshalPhysical(parseData(a[4]))
+		if math.IsNaN(f) {
+			return "nan"
+		}
+		return fmt.Sprintf("%016x", math.Float64bits(f))
+	})
+	RegExec("sgv", func(a []string) string {
+		s := sigOf(a[0], a[1], a[2], a[3] == "1")
+		for i, v := range strings.Split(a[5], ",") {
+			s.ValueDescriptions = append(s.ValueDescriptions, &descriptor.ValueDescription{Value: I(v), Description: fmt.Sprint(i)})
+		}
+		d, ok := s.UnmarshalValueDescription(parseData(a[4]))
+		if !ok {
+			return "none"
+		}
+		return "d" + d
+	})
 	RegExec("sgb", func(a []string) string {
 		return B(sigOf("LE", a[0], "1", false).UnmarshalBool(parseData(a[1])))
 	})
@@ -135,4 +175,32 @@ func init() {
 		s := &descriptor.Signal{Length: U8(a[0])}
 		return fmt.Sprint(s.SaturatedCastUnsigned(U(a[1])))
 	})
+}
+
+// refRead: the documented numbering, bit by bit (independent of data.go)
+func refRead(ge Geo, p uint64) uint64 {
+	var v uint64
+	for i := 0; i < ge.L; i++ {
+		var pos int
+		if ge.BE {
+			pos = BePos(ge.S, ge.L-1-i)
+		} else {
+			pos = ge.S + i
+		}
+		if p>>uint(pos)&1 == 1 {
+			v |= 1 << uint(i)
+		}
+	}
+	return v
+}
+
+// refMSBMask: payload (as the uint64 the ops lines carry) with the range's most significant value bit set
+func refMSBMask(ge Geo) uint64 {
+	for b := 0; b < 64; b++ {
+		m := uint64(1) << uint(b)
+		if refRead(ge, m)>>(uint(ge.L)-1)&1 == 1 {
+			return m
+		}
+	}
+	return 0
 }
